@@ -12,14 +12,14 @@ def check(tier, seed):
     d.add_lean(NAT_LEAN + NAT_LEAN_NH + ["PV.shift_cov", "PV.scale_cov", "PV.C02_adjoint", "PV.Laws.conj_law", "PV.Laws.coeff_hom_law", "PV.Laws.perm_law", "PV.Laws.unitary_law"])
     d.assumptions += [NAT_NOTE,
                       INSTANCE_NOTE + "conjugation by a block-permutation / state-permutation matrix, by a unitary acting inside levels of H_0 that the kept pattern treats "
-                      "as a whole, entry-wise complex conjugation, and projection of a direct sum onto a summand; for these the kept/eliminated split is preserved because "
+                      "as a whole, entry-wise complex conjugation, and for direct sums the projections of the product algebra M x M' together with its block-diagonal embedding; for these the kept/eliminated split is preserved because "
                       "the pattern computed by block_diagonalize is a function of the block labels and of the energy differences only (PyVC obligations "
                       "mask:kept-iff-energies-within-atol, mask:complementary, mask:symmetric, commuting-flag obligations of unit bd_masks)",
                       "conjugation law: fully mechanised for the matrix model (PV.Laws.conj_law: entry-wise conjugation of every order of H conjugates every order of H_tilde, U, U^dagger); "
                       "permutation of basis states and relabelling of blocks: fully mechanised (PV.Laws.perm_law: transporting the entry classification and the Hamiltonian along a bijection of the basis "
                       "states transports every order of the outputs); change of basis by a unitary compatible with the masks - a rotation inside degenerate levels - : PV.Laws.unitary_law (the "
                       "compatibility of W with the kept / eliminated pattern is its hypothesis); all three are instances of PV.Laws.coeff_hom_law (any star ring homomorphism of the coefficient "
-                      "algebras that respects the split); direct sums: the projection onto a summand is such a homomorphism (instance not spelled out in Lean)",
+                      "algebras that respects the split); direct sums: through the product algebra M x M' - the projection onto a factor and the block-diagonal embedding into the big matrix algebra are both such homomorphisms (this instance is not spelled out in Lean; bounded battery)",
                       "shift: PV.shift_cov with z = c * identity (central, kept); scaling: PV.scale_cov (any non-zero rational factor; the code's thresholds `atol` are "
                       "absolute, so the statement concerns inputs whose kept pattern is unchanged by the scaling - the property's threshold clause)"]
     d.not_decided += ["threshold behaviour (absolute atol, relative 1e-5 of np.isclose) under scaling and shifts: floating point (A-FP); bounded battery only",
